@@ -442,8 +442,67 @@ fn check_case_inner(c: &BabaiCase, st: &mut Stats) -> Result<(), Fail> {
     Ok(())
 }
 
+/// The same small basis (f, g), zero-padded, reduced in several ring dimensions one after the
+/// other on one thread (growing, shrinking, repeated): each call must satisfy the property on its
+/// own, whatever was reduced before it.
+#[derive(Clone, Debug, Serialize, Deserialize)]
+pub struct SeqCase {
+    f_low: Vec<i32>,
+    g_low: Vec<i32>,
+    /// log2 of the ring dimension of each call
+    dims: Vec<u32>,
+    kmag: i64,
+    seed: u64,
+}
+
+pub struct BabaiSequence;
+
+impl Sub for BabaiSequence {
+    type Case = SeqCase;
+    fn name(&self) -> &'static str {
+        "babai_same_basis_sequence"
+    }
+    fn max_shrink_iters(&self) -> u32 {
+        128
+    }
+    fn strategy(&self, _env: &Env) -> BoxedStrategy<SeqCase> {
+        let low = proptest::collection::vec(-9i32..=9, 2..=4);
+        (low.clone(), low, proptest::collection::vec(2u32..=7, 2..=4), prop_oneof![Just(0i64), Just(3i64), (4u32..=16).prop_map(|b| 1i64 << b)], any::<u64>())
+            .prop_map(|(f_low, g_low, dims, kmag, seed)| SeqCase { f_low, g_low, dims, kmag, seed })
+            .boxed()
+    }
+    fn check(&self, c: &SeqCase, st: &mut Stats) -> Result<(), Fail> {
+        if c.f_low.len() > 4 || c.g_low.len() > 4 || c.dims.iter().any(|&l| !(2..=10).contains(&l)) || c.f_low.iter().chain(c.g_low.iter()).all(|&x| x == 0) {
+            return Ok(());
+        }
+        for (step, &l) in c.dims.iter().enumerate() {
+            let n = 1usize << l;
+            let mut f = vec![0i32; n];
+            let mut g = vec![0i32; n];
+            f[..c.f_low.len()].copy_from_slice(&c.f_low);
+            g[..c.g_low.len()].copy_from_slice(&c.g_low);
+            let (f64v, g64v): (Vec<i64>, Vec<i64>) = (f.iter().map(|&x| x as i64).collect(), g.iter().map(|&x| x as i64).collect());
+            let mut s = mix(c.seed ^ step as u64);
+            let k: Vec<i64> = (0..n).map(|_| { s = mix(s); if c.kmag == 0 { 0 } else { (s % (2 * c.kmag as u64 + 1)) as i64 - c.kmag } }).collect();
+            let f0: Vec<i64> = (0..n).map(|_| { s = mix(s); (s % 41) as i64 - 20 }).collect();
+            let g0: Vec<i64> = (0..n).map(|_| { s = mix(s); (s % 41) as i64 - 20 }).collect();
+            let cf: Vec<i64> = negacyclic_mul_exact(&k, &f64v).iter().zip(f0.iter()).map(|(a, b)| a + b).collect();
+            let cg: Vec<i64> = negacyclic_mul_exact(&k, &g64v).iter().zip(g0.iter()).map(|(a, b)| a + b).collect();
+            if cf.iter().chain(cg.iter()).any(|x| x.abs() >= 1 << 24) {
+                continue;
+            }
+            let case = BabaiCase { f, g, cap_f: cf.iter().map(|&x| x as i32).collect(), cap_g: cg.iter().map(|&x| x as i32).collect() };
+            check_case(&case, st).map_err(|fail| Fail::new(fail.key, format!("call {} of the sequence (n = {}, same low-degree basis as the previous calls in dimensions {:?}): {}", step, n, &c.dims[..step], fail.msg)))?;
+        }
+        st.count("same_basis_sequences");
+        st.nontrivial(&(&c.f_low, &c.g_low, &c.dims, c.seed));
+        st.sample("sequence", || json!({"f_low": c.f_low, "g_low": c.g_low, "dims": c.dims.iter().map(|l| 1usize << l).collect::<Vec<_>>()}));
+        Ok(())
+    }
+}
+
 const META: Meta = Meta {
-    rule: "proptest (f, g, F, G) for n = 2..1024: f, g with |coefficients| <= 127, not both zero (Gaussian at the key-generation width, uniform in +-6, uniform in +-127, sparse, or an ill-conditioned pair f = p a, g = p b sharing a small factor p such as (1+X)^2 that nearly vanishes at roots of X^n+1); (F, G) = (F0, G0) + k (f, g) with (F0, G0) small or uniform below 2^8..2^22 and k an integer polynomial of magnitude 0, 1..4 or 2^0..2^20 (halved until every coefficient is below 2^24), or unrelated uniform (F, G), or F = G = 0. Oracle: both versions return the same Ok/Err and, when Ok, the same pair; for each version's own result f (G - G') = g (F - F') exactly (i64 schoolbook) and F - F' = k f, G - G' = k g for one integer polynomial k recovered modulo a 62-bit NTT prime and verified exactly; when Ok, a second reduction is the identity. Err from both (the documented 1000-iteration cap, reached on exact rounding ties) counts as agreement. Non-trivial = n >= 8 and k != 0 (the input was not already reduced); distinct by hash.",
+    rule: "proptest (f, g, F, G) for n = 2..1024: f, g with |coefficients| <= 127, not both zero (Gaussian at the key-generation width, uniform in +-6, uniform in +-127, sparse, or an ill-conditioned pair f = p a, g = p b sharing a small factor p such as (1+X)^2 that nearly vanishes at roots of X^n+1); (F, G) = (F0, G0) + k (f, g) with (F0, G0) small or uniform below 2^8..2^22 and k an integer polynomial of magnitude 0, 1..4 or 2^0..2^20 (halved until every coefficient is below 2^24), or unrelated uniform (F, G), or F = G = 0. Oracle: both versions return the same Ok/Err and, when Ok, the same pair; for each version's own result f (G - G') = g (F - F') exactly (i64 schoolbook) and F - F' = k f, G - G' = k g for one integer polynomial k recovered modulo a 62-bit NTT prime and verified exactly; when Ok, a second reduction is the identity. Err from both (the documented 1000-iteration cap, reached on exact rounding ties) counts as agreement. A third sub-check reduces against the same low-degree basis, zero-padded, in 2-4 different ring dimensions consecutively on one thread. Non-trivial = n >= 8 and k != 0 (the input was not already reduced); distinct by hash.",
     assumptions: &[
         "oracle: exact i64 schoolbook products; quotient recovery modulo primes p = 1 mod 2048 just below 2^62 found by search (deterministic Miller-Rabin)",
         "the functions document an iteration cap and return Result; their caller resamples on Err",
@@ -452,7 +511,7 @@ const META: Meta = Meta {
 
 pub fn run(env: &Env, replay: Option<&Path>) -> i32 {
     let mut report = Report::new();
-    let subs: [&dyn DynSub; 2] = [&Babai, &BabaiLarge];
+    let subs: [&dyn DynSub; 3] = [&Babai, &BabaiLarge, &BabaiSequence];
     if let Some(p) = replay {
         if let Err(e) = replay_file(env, &subs, p, &mut report) {
             eprintln!("harness: {}", e);
@@ -463,5 +522,6 @@ pub fn run(env: &Env, replay: Option<&Path>) -> i32 {
     replay_corpus(env, &subs, &mut report);
     drive(env, &Babai, env.tier.pick(40_000, 800_000), &mut report);
     drive(env, &BabaiLarge, env.tier.pick(2_400, 40_000), &mut report);
+    drive(env, &BabaiSequence, env.tier.pick(6_000, 120_000), &mut report);
     finish(env, report, &META)
 }
